@@ -195,7 +195,7 @@ theorem mem_diffAux (h : IsLinear cmp) (flip : Bool) (l : List α) (e : α) (t :
     grind
   | case3 h2 t2 h1 hc =>
     have := h.eq_imp _ _ hc
-    simp [this]
+    simp [this]; grind
   | case4 h2 t2 h1 hc a t ih =>
     have := h.eq_imp _ _ hc
     subst this
@@ -218,7 +218,7 @@ theorem mem_diffAux (h : IsLinear cmp) (flip : Bool) (l : List α) (e : α) (t :
     grind
   | case8 h1 h2 t2 hc =>
     have := h.eq_imp _ _ hc
-    simp [this]
+    simp [this]; grind
   | case9 h1 h2 t2 hc a t ih =>
     have := h.eq_imp _ _ hc
     subst this
@@ -488,25 +488,28 @@ theorem ordSubsetAux_iff (h : IsLinear cmp) (h1 : α) (t1 l2 : List α)
     (s1 : StrictSorted cmp (h1 :: t1)) (s2 : StrictSorted cmp l2) :
     ordSubsetAux cmp h1 t1 l2 = true ↔ ∀ x ∈ h1 :: t1, x ∈ l2 := by
   fun_induction ordSubsetAux cmp h1 t1 l2 with
-  | case1 h1 t1 => simp
+  | case1 h1 t1 =>
+    simp only [Bool.false_eq_true, false_iff]
+    intro hall
+    exact absurd (hall h1 List.mem_cons_self) List.not_mem_nil
   | case2 h1 t1 h2 t2 hc ih =>
     have hc' := (h.gt_iff _ _).1 hc
     have n := (LB.cons h.toIsPreorder hc' s1).ne h.toIsPreorder
     rw [ih s1 (strict_cons.1 s2).2]
     simp only [List.mem_cons] at n ⊢
     grind
-  | case3 h1 t1 h2 t2 hc ih =>
+  | case3 h1 h2 t2 hc =>
+    have := h.eq_imp _ _ hc
+    simp [this]
+  | case4 h1 h2 t2 hc a t ih =>
     have := h.eq_imp _ _ hc
     subst this
     have n1 := ((strict_cons.1 s1).1).ne h.toIsPreorder
-    cases t1 with
-    | nil => simp
-    | cons a t =>
-      have := ih (strict_cons.1 s1).2 (strict_cons.1 s2).2
-      simp only [this]
-      simp only [List.mem_cons] at n1 ⊢
-      grind
-  | case4 h1 t1 h2 t2 hc =>
+    have := ih (strict_cons.1 s1).2 (strict_cons.1 s2).2
+    simp only [this]
+    simp only [List.mem_cons] at n1 ⊢
+    grind
+  | case5 h1 t1 h2 t2 hc =>
     have n := (LB.cons h.toIsPreorder hc s2).not_mem h.toIsPreorder
     simp only [Bool.false_eq_true, false_iff]
     intro hall
